@@ -13,8 +13,8 @@ pub fn def() -> PropDef {
         job_level,
         run_job,
         replay,
-        rule: "configs: action lists (x), (x y), (x y z), (x y z w) x {tap-dance, tap-dance-eager} x timeout T in {3,6} x rapid-event-delay {0,5}; a = the dance key, b = plain key. Histories: EVERY physically consistent schedule of N events over press/release of a and b, each preceded by a gap from {0,1,T-1,T,T+1} (quick N=5, thorough N=6/7), then released and settled. Taps family: EVERY sequence of U complete taps (press, 1 tick, release) of a / b with the gap before each tap from {1, T-1, T+1} (quick U=6, thorough U=7): reaches list exhaustion and restart (len+2 taps in a row). Oracle TapDanceSpec: taps are counted while each press of the dance key follows the previous press by less than T (gap == T: either reading accepted, but the press must be accounted for); the dance ends on timeout / press of another key / list exhausted; lazy: the sequence of press outputs equals [N-th action of each dance, interrupting keys after the chosen action], each chosen action pressed once and released not before the final release of the dance key; eager: the i-th tap of a dance presses the i-th action. Accounting invariant: the tap counts implied by the outputs sum to the number of physical presses of the dance key (no press swallowed, none doubled). After settle nothing is held.",
-        assumptions: &["key actions only in the lists (layer / tap-hold members are covered by C01/C02 for crash and stuck-output, not for count)", "boundary gap == T is a don't-care between 'same dance' and 'new dance'"],
+        rule: "configs: action lists (x), (x y), (x y z), (x y z w) x {tap-dance, tap-dance-eager} x timeout T in {3,6} x rapid-event-delay {0,5}; a = the dance key, b = plain key. Histories: EVERY physically consistent schedule of N events over press/release of a and b, each preceded by a gap from {0,1,T-1,T,T+1} (quick N=5, thorough N=6/7), then released and settled. Tap-hold member family: (tap-dance T ((tap-hold 0 H x y) z)) held for EVERY length 1..T+H+8, alone and with another key pressed at every offset before the dance timeout: the inner tap-hold's decision runs from the end of the dance (x if released within H of it, y if held past it, +-2 either). Taps family: EVERY sequence of U complete taps (press, 1 tick, release) of a / b with the gap before each tap from {1, T-1, T+1} (quick U=6, thorough U=7): reaches list exhaustion and restart (len+2 taps in a row). Oracle TapDanceSpec: taps are counted while each press of the dance key follows the previous press by less than T (gap == T: either reading accepted, but the press must be accounted for); the dance ends on timeout / press of another key / list exhausted; lazy: the sequence of press outputs equals [N-th action of each dance, interrupting keys after the chosen action], each chosen action pressed once and released not before the final release of the dance key; eager: the i-th tap of a dance presses the i-th action. Accounting invariant: the tap counts implied by the outputs sum to the number of physical presses of the dance key (no press swallowed, none doubled). After settle nothing is held.",
+        assumptions: &["key actions in the lists, plus one family with a tap-hold member (layer members are covered by C01/C02 for crash and stuck-output, not for count)", "boundary gap == T is a don't-care between 'same dance' and 'new dance'"],
         required_level,
         min_outcomes: 3,
     }
@@ -52,6 +52,8 @@ struct Job {
     level: u32,
     /// taps family: n units, each a complete tap (press, 1 tick, release) of a or b
     taps: bool,
+    /// tap-hold member family (one job): the list's first item is a tap-hold
+    th_member: bool,
 }
 
 fn jobs(tier: Tier) -> &'static Vec<Job> {
@@ -76,11 +78,14 @@ fn jobs(tier: Tier) -> &'static Vec<Job> {
                         }
                         for red in [5u32, 0] {
                             for first in 0..10 {
-                                v.push(Job { spec: Spec { len, eager, t, red }, n, first, level: lvl, taps: false });
+                                v.push(Job { spec: Spec { len, eager, t, red }, n, first, level: lvl, taps: false, th_member: false });
                             }
                         }
                     }
                 }
+            }
+            if lvl == 0 {
+                v.push(Job { spec: Spec { len: 2, eager: false, t: 6, red: 5 }, n: 0, first: 0, level: 0, taps: false, th_member: true });
             }
             // taps family (level 0 only): long runs of taps reach list exhaustion + restart (len + 2 taps)
             if lvl == 0 {
@@ -90,7 +95,7 @@ fn jobs(tier: Tier) -> &'static Vec<Job> {
                         for t in [3u32, 6] {
                             for red in [5u32, 0] {
                                 for first in 0..6 {
-                                    v.push(Job { spec: Spec { len, eager, t, red }, n: units, first, level: 0, taps: true });
+                                    v.push(Job { spec: Spec { len, eager, t, red }, n: units, first, level: 0, taps: true, th_member: false });
                                 }
                             }
                         }
@@ -347,8 +352,98 @@ fn hist_to_sched(h: &[Ev]) -> Vec<(u32, Ev)> {
     out
 }
 
+/// Tap-hold member family: (tap-dance T ((tap-hold 0 H x y) z)), lazy. The chosen action is a tap-hold
+/// whose own decision starts when the dance ends: released within H of that instant -> x, held past it
+/// -> y (+-2 ticks of processing latency around the boundary: either). ALL hold lengths 1..T+H+8, alone
+/// and with another key pressed at every offset before the dance timeout (which ends the dance there).
+fn run_th_member(st: &mut Stats, found: &mut Vec<Violation>) {
+    const T: u32 = 6;
+    const H: u32 = 8;
+    for rapid in [5u32, 0] {
+        let cfg = format!("(defcfg rapid-event-delay {rapid})\n(defsrc a b)\n(deflayer base (tap-dance {T} ((tap-hold 0 {H} x y) z)) b)\n");
+        if let Err(e) = Sim::new(&cfg) {
+            found.push(Violation { property: "C17".into(), signature: "th-member/rejected".into(), what: e.chars().take(200).collect(), detail: json!({"kind": "history", "cfg": cfg, "history": ""}) });
+            return;
+        }
+        let (a, b) = (kc("a"), kc("b"));
+        // interrupt offset 0 = no interrupting key
+        for intr in 0..T {
+            for g in 1..=(T + H + 8) {
+                if intr != 0 && intr >= g {
+                    // the other key is pressed while a is still held
+                    continue;
+                }
+                let mut h = vec![Ev::T(2), Ev::P(a)];
+                let dance_end;
+                if intr == 0 {
+                    h.push(Ev::T(g));
+                    h.push(Ev::R(a));
+                    dance_end = T; // timeout (the list has a second item, one tap does not exhaust it)
+                } else {
+                    h.push(Ev::T(intr));
+                    h.push(Ev::P(b));
+                    h.push(Ev::T(g - intr));
+                    h.push(Ev::R(a));
+                    h.push(Ev::T(1));
+                    h.push(Ev::R(b));
+                    dance_end = intr;
+                }
+                h.push(Ev::T(T + H + 20));
+                crate::par::announce(&cfg, &h);
+                st.evaluations += 1;
+                match crate::sim::run_fresh(&cfg, &h) {
+                    Err(m) => {
+                        if found.len() < 3 {
+                            found.push(mk_violation("C17", format!("th-member/{}", panic_signature(&m)), m, "history", &cfg, &h, json!({})));
+                        }
+                    }
+                    Ok((_, tr)) => {
+                        st.validated += 1;
+                        st.transitions += h.len() as u64;
+                        let downs: Vec<String> = tr.iter().filter_map(|(_, o)| if let Out::Down(k) = o { Some(k.clone()) } else { None }).collect();
+                        // how long a stayed down after the dance ended
+                        let held_after_end = g as i64 - dance_end as i64;
+                        let mut ok_first: Vec<&str> = vec![];
+                        if held_after_end < H as i64 - 2 {
+                            ok_first.push("X");
+                        } else if held_after_end > H as i64 + 2 {
+                            ok_first.push("Y");
+                        } else {
+                            ok_first.push("X");
+                            ok_first.push("Y");
+                        }
+                        let want_len = if intr == 0 { 1 } else { 2 };
+                        let good = downs.len() == want_len && ok_first.contains(&downs[0].as_str()) && (intr == 0 || downs[1] == "B") && crate::sim::os_down_set(&tr).is_empty();
+                        st.outcome(if downs.first().map(|d| d == "Y").unwrap_or(false) { "th-member-hold" } else { "th-member-tap" });
+                        if !good && !found.iter().any(|f| f.signature == "lazy::th-member") {
+                            found.push(mk_violation(
+                                "C17",
+                                "lazy::th-member".into(),
+                                format!("tap-dance whose chosen action is (tap-hold 0 {H} x y): dance key held {g} ticks, dance ended at {dance_end} ({}), so the tap-hold ran for {held_after_end} ticks: expected first output in {ok_first:?}{}, observed presses {downs:?}; trace [{}]", if intr == 0 { "timeout" } else { "other key pressed" }, if intr == 0 { "" } else { " then B" }, crate::sim::trace_to_string(&tr)),
+                                "history",
+                                &cfg,
+                                &h,
+                                json!({}),
+                            ));
+                        }
+                    }
+                }
+            }
+        }
+    }
+    st.sample(json!({"family": "tap-hold member", "cases": "2 rapid-event-delays x 6 interrupt offsets x 22 hold lengths"}));
+}
+
 fn run_job(tier: Tier, idx: usize, st: &mut Stats) {
     let j = &jobs(tier)[idx];
+    if j.th_member {
+        let mut found = vec![];
+        run_th_member(st, &mut found);
+        for v in found {
+            st.violation(v);
+        }
+        return;
+    }
     let cfg = j.spec.cfg();
     if j.first == 0 {
         if let Err(e) = Sim::new(&cfg) {
@@ -443,6 +538,12 @@ fn run_job(tier: Tier, idx: usize, st: &mut Stats) {
 }
 
 fn replay(d: &serde_json::Value) -> Vec<Violation> {
+    if d.get("cfg").and_then(|x| x.as_str()).map(|c| c.contains("(tap-hold 0 8 x y)")).unwrap_or(false) {
+        let mut st = Stats::default();
+        let mut found = vec![];
+        run_th_member(&mut st, &mut found);
+        return found;
+    }
     let Some((cfg, h)) = detail_cfg_hist(d) else { return vec![] };
     let idx = d.get("extra").and_then(|e| e.get("job")).and_then(|x| x.as_u64()).unwrap_or(0) as usize;
     let tier = Tier::parse(d.get("extra").and_then(|e| e.get("tier")).and_then(|x| x.as_str()).unwrap_or("quick"));
